@@ -109,6 +109,34 @@ def gen_single_ops(rng, aid, n_iter, with_solve=True, results_prob=0.15, after_s
     return ops
 
 
+def gen_evq(rng, aid, spec):
+    """The caller queries the solver's own evolvent (solver.evolvent / method.evolvent handed to a listener):
+    a pure query API (C17), legal at any moment."""
+    lower, upper = spec.get("lower"), spec.get("upper")
+    u = rng.random()
+    if lower is None or u < 0.45:
+        x = rng.choice([0.5, 0.5, 0.0, 1.0, rng.random(), rng.randrange(1024) / 1024.0])
+        return {"a": aid, "op": "evq", "q": "image", "x": x}
+    y = [l + (h - l) * rng.random() for l, h in zip(lower, upper)]
+    how = rng.choice(["array", "list", "f32"])
+    if rng.random() < 0.4 and all(math.ceil(l) <= math.floor(h) for l, h in zip(lower, upper)):
+        y = [rng.randint(math.ceil(l), math.floor(h)) for l, h in zip(lower, upper)]
+        how = rng.choice(["int_list", "int_array"])
+    return {"a": aid, "op": "evq", "q": rng.choice(["inverse", "preimages"]), "y": y, "as": how}
+
+
+def sprinkle_evq(rng, ops, aid, spec, prob=0.15, each=0.25):
+    """With probability `prob` the driver of `aid` also queries the solver's evolvent now and then."""
+    if rng.random() >= prob:
+        return ops
+    out = []
+    for o in ops:
+        out.append(o)
+        if o.get("a") == aid and o["op"] in ("create", "iterate", "solve") and rng.random() < each:
+            out.append(gen_evq(rng, aid, spec))
+    return out
+
+
 def gen_clock(rng):
     c = {"start": 1.7e9, "eval_cost": [0.001, float("%.3g" % rng.uniform(0.01, 3.0))]}
     if rng.random() < 0.3:
